@@ -155,6 +155,12 @@ def run_C03(res):
     for p, h, tag in spec:
         kind, args, det = limit_args(rnd)
         cases.append((p, h, "1", kind, args, det, tag))
+    # roots without any legal move (mate / stalemate): the answer must be the null move
+    sparse = [l for l in run_driver([f"gsparse {res.seed + 9} {3000 if res.tier == 'quick' else 60000} 0"]) if l and l != "bad-op"]
+    nomoves = [p for p, m in zip(sparse, run_driver_par(["moves " + p for p in sparse])) if m == "-"]
+    for p in nomoves[:30 if res.tier == "quick" else 600]:
+        kind, args, det = limit_args(rnd)
+        cases.append((p, [Pos(p).hash], "1", kind, args, det, "no-legal-move"))
     reqs = [f"root {p} {hist_str(h)} {tt} {args}" for p, h, tt, kind, args, det, tag in cases]
     impl = run_hx_par(reqs)
     det_idx = [i for i, c in enumerate(cases) if c[5]]
@@ -314,8 +320,12 @@ def match_F10(f):
 # ------------------------------------------------------------------ C12
 def run_C12(res):
     rnd = random.Random(res.seed)
-    n = 2500 if res.tier == "quick" else 60000
-    ps = [l for l in run_driver([f"gmate {res.seed} {n} 0", f"gmate {res.seed + 1} {n // 4} 1"]) if l and l != "bad-op"]
+    n = 12000 if res.tier == "quick" else 200000
+    # gmate answers with several lines per request: one driver process per request
+    import concurrent.futures
+    with concurrent.futures.ThreadPoolExecutor(16) as ex:
+        chunks = list(ex.map(lambda i: run_driver([f"gmate {res.seed * 31 + i} {n // 16} {1 if i % 4 == 3 else 0}"]), range(16)))
+    ps = [l for ch in chunks for l in ch if l and l != "bad-op"]
     gs = games(res, 6 if res.tier == "quick" else 60, 80, 0, 200)
     cand = [p for g in gs for p in g]
     # mates in one met in playouts / test FENs as well
